@@ -4,7 +4,7 @@
 (***************************************************************************)
 EXTENDS Store
 
-SetOf(d, k) == IF Has(d, k) THEN d[k].m ELSE {}
+SetOf(d, k) == IF Has(d, k) /\ d[k].ty = "set" THEN d[k].m ELSE {}
 PutSet(d, k, m) == IF m = {} THEN Del(d, k) ELSE Put(d, k, VSet(m, ExpOf(d, k)))
 SeqRange(s) == {s[i] : i \in 1..Len(s)}
 
@@ -138,13 +138,15 @@ SInterCard(d, a) ==
         ks == SubSeq(a, 2, n + 1)
         rest == SubSeq(a, n + 2, Len(a))
         lim == IF Len(rest) = 2 THEN ArgInt(rest[2]) ELSE [ok |-> TRUE, v |-> 0]
-        okr == rest = <<>> \/ (Len(rest) = 2 /\ Is(rest[1], "LIMIT") /\ lim.ok /\ lim.v >= 0)
+        negLim == Len(rest) = 2 /\ Is(rest[1], "LIMIT") /\ lim.ok /\ lim.v < 0
+        okr == rest = <<>> \/ (Len(rest) = 2 /\ Is(rest[1], "LIMIT") /\ lim.ok /\ (lim.v >= 0 \/ On("D_SINTERCARD_NEGATIVE_LIMIT_ACCEPTED")))
+        tag(res) == IF negLim THEN [res EXCEPT !.dv = @ \cup {"D_SINTERCARD_NEGATIVE_LIMIT_ACCEPTED"}] ELSE res
         c == Cardinality(InterAll(d, ks))
     IN  IF Len(a) < 2 \/ ~okn \/ ~okr THEN Fail(d, EArg)
         ELSE IF AnyWrong(d, ks) THEN
              (IF On("D_SETALG_EARLY_OUT_SKIPS_TYPECHECK") /\ InterEarlyOut(d, ks)
-              THEN ResD(d, RInt(0), "D_SETALG_EARLY_OUT_SKIPS_TYPECHECK") ELSE Fail(d, WT))
-        ELSE IF n = 1 /\ c > 0 /\ On("D_SINTERCARD_SINGLE_KEY_ZERO") THEN ResD(d, RInt(0), "D_SINTERCARD_SINGLE_KEY_ZERO")
-        ELSE Res(d, RInt(IF lim.v > 0 THEN Min2(c, lim.v) ELSE c))
+              THEN tag(ResD(d, RInt(0), "D_SETALG_EARLY_OUT_SKIPS_TYPECHECK")) ELSE tag(Fail(d, WT)))
+        ELSE IF n = 1 /\ c > 0 /\ On("D_SINTERCARD_SINGLE_KEY_ZERO") THEN tag(ResD(d, RInt(0), "D_SINTERCARD_SINGLE_KEY_ZERO"))
+        ELSE tag(Res(d, RInt(IF lim.v > 0 THEN Min2(c, lim.v) ELSE c)))
 
 =============================================================================
